@@ -11,3 +11,4 @@ import Generated.GoCollection
 import Generated.GoSplicer
 import Generated.GoMime
 import Generated.GoJtp
+import Generated.GoAnsih
